@@ -247,8 +247,8 @@ class OptimizerBounds(Contract):
 
     def cases(self, tier):
         for method in self.METHODS:
-            for variant in ("plain", "bounded", "nonneg", "fixed_and_expr"):
-                if method == "Levenberg-Marquardt" and variant in ("bounded", "nonneg"):
+            for variant in ("plain", "bounded", "nonneg", "nonneg_after_plain", "fixed_and_expr"):
+                if method == "Levenberg-Marquardt" and variant in ("bounded", "nonneg", "nonneg_after_plain"):
                     continue  # scipy rejects bounds with lm (T: exceptional contract of least_squares)
                 yield {"method": method, "variant": variant}
 
@@ -271,8 +271,9 @@ class OptimizerBounds(Contract):
                 S.require(L.le(lo, p.value), "start value within bounds")
                 S.require(L.le(p.value, hi), "start value within bounds")
                 p.minimum, p.maximum = lo, hi
-            elif v == "nonneg":
-                if i == 0:
+            elif v in ("nonneg", "nonneg_after_plain"):
+                nn = 0 if v == "nonneg" else 1  # position of the non-negative parameter among the free ones
+                if i == nn:
                     p.non_negative = True
                     S.require(L.gt(p.value, 0), "non-negative value positive")
                     S.require(L.not_(L.eq(p.value, 1.0)), "not the guard value")
@@ -281,7 +282,7 @@ class OptimizerBounds(Contract):
                     S.require(L.not_(L.eq(hi, 1.0)), "bound is not the guard value")
                     p.maximum = hi
                     # the trial point of the least_squares stub must not hit the guard value either
-                    x1 = b.S.named("x!1_0")
+                    x1 = b.S.named(f"x!1_{nn}")
                     S.require(L.not_(L.eq(L.fn("exp", x1), 1.0)), "trial point is not the guard value")
                 elif i >= 2:
                     p.vary = False
@@ -372,7 +373,7 @@ class OptimizerBounds(Contract):
             q = rp[lab]
             if not q.non_negative:
                 se.append(L.eq(q.standard_error, rm * L.fn("sqrt", cov[j, j])))
-            elif S.symbolic:
+            else:
                 err = rm * L.fn("sqrt", cov[j, j])
                 se.append(L.or_(L.eq(q.standard_error, q.value * (L.fn("exp", err) - 1.0)), L.eq(q.standard_error, abs(q.value))))
         yield "standard_error_of_label_i_from_covariance_entry_i", L.and_(*se)
